@@ -100,6 +100,21 @@ CHECKS = {
               'error sampler), identified by its exact residual.  Reduced-model samplers are covered under C08; covariate sampler under C07.'),
         technique='contract-based deductive verification: symbolic execution with ghost RNG state + law-algebra lemmas + Sigma-normal-form/z3',
     ),
+    'C07': dict(
+        category='proof',
+        text=('Deductive check of the covariate machinery on the real classes with symbolic vartheta_0, beta and covariates: for every '
+              'selection of transformed parameters (all lists of up to 3 in-range pairs in any order with duplicates on 2x1, 2x2, 1x2, 2x3 '
+              'grids; default full selections up to n_dim = 5; 1 or 2 covariates) the individual-specific population parameters equal '
+              'vartheta_0 + sum_c chi_ic beta on exactly the (parameter, dimension, covariate) triple that each beta\'s published name '
+              'states, unselected entries unchanged; the sensitivities w.r.t. vartheta_0 and beta equal the mechanically derived '
+              'derivatives; names stay aligned after set_dim_names; the covariate sampler is proved (ghost RNG) to draw row i from the '
+              'wrapped model at vartheta_i.  Delegation of likelihood, sensitivities and the individual-parameter transform to the wrapped '
+              'model per individual is proved end to end in C02/C03 (covariate-dependent sub-models in hierarchical likelihoods).'),
+        design_ref='DESIGN.md section 4 (C07)',
+        note=('Structural bounds as stated (2 individuals, values symbolic); real numpy on object arrays; ghost RNG contracts; three genuine '
+              'defects found by this check were repaired (fix commits 77c1a44, cf7126d, 663fb3b).'),
+        technique='contract-based deductive verification: symbolic execution of the real classes, name-decoded specification, mechanically derived sensitivities',
+    ),
     'C12': dict(
         category='proof',
         text=('Deductive proof with the numbers of measured individuals, simulated individuals, observables and time points all symbolic '
@@ -127,5 +142,6 @@ CHECK_MODULES = {
     'C04': 'contracts.c04',
     'C05': 'contracts.c05',
     'C06': 'contracts.c06',
+    'C07': 'contracts.c07',
     'C12': 'contracts.c12',
 }
